@@ -55,7 +55,7 @@ CHECKS = {
    ref='DESIGN §3 C03'),
  'C11': dict(cat=TV, tech='real formatter + parser run on an enumerated family of texts; z3 decides for all assignments that the model re-parsed from the formatted text means the same as the original, and exists/forall projection equivalence of the two compiled linear models',
    text='For every text (all (parent, child, side) operator triples printed with minimal parentheses, unary over negative constants, implicit products, P texts in 3 spellings, hand-written surface variety) the real format() output must be accepted and z3 decides objective-value equality and per-constraint truth-value equality for all assignments plus equivalence of the compiled linear models; format(format(t)) == format(t) is evaluated.',
-   note='Meaning part only is solver-decided; idempotence is a string comparison. The hand-written part of the family covers every binder shape of iteration scopes, every declaration form, where-block values of every literal kind, weighted graph literals, strict comparisons; 140 programs of the repository's own tests / docs are included. Outside: other data-driven shapes.',
+   note='Meaning part only is solver-decided; idempotence is a string comparison. The hand-written part of the family covers every binder shape of iteration scopes, every declaration form, where-block values of every literal kind, weighted graph literals, strict comparisons; 140 programs from the repository tests and docs are included. Outside: other data-driven shapes.',
    ref='DESIGN §3 C11'),
  'C12': dict(cat=TV, tech='real Model / LinearModel renderings re-compiled by the real parser, type checker and linearizer; z3 decides (exists/forall LRA+LIA) projection equivalence of original and re-compiled linear model for all assignments',
    text='For every compiled Model and LinearModel of the family (M1, seeded M(3) with names, seeded L(3,3) with coefficients 1e-9..1e9, offsets, satisfy) the real to_string() text must parse, type-check and compile, and the re-compiled linear model must have the same projection on the original variables and the same best objective, decided by z3 for all assignments.',
